@@ -61,7 +61,7 @@ PROPS = {
             "the radiance of one bidirectional sample is not observable at the Cast seam: BidirPathTracer is checked for sample counts, exactly-once and termination only",
         ],
         "components": {"real": ["render3d (ray_renderer.go, concurrency.go, raytrace.go, raycast.go, bidir.go, camera.go) with -tags verif hooks", "Go runtime channels/WaitGroup, global math/rand"],
-                       "shim": [], "stub": ["castObj: render3d.Object whose Cast records the sample history and yields to the scheduler"]},
+                       "shim": [], "stub": ["castObj: render3d.Object whose Cast records the sample history, yields to the scheduler and, in one case of eight, renders a nested picture of another scene from inside Cast"]},
     },
     "C13": {
         "race": True,
@@ -118,7 +118,7 @@ PROPS = {
             "goroutines that become runnable through a channel operation run only up to the hook placed directly after that operation",
         ],
         "components": {"real": SIM_REAL, "shim": SIM_SHIM,
-                       "stub": ["simsolid (workload solids with scheduling points in Contains, analytic exact filter)"]},
+                       "stub": ["simsolid (workload solids with scheduling points in Contains, analytic exact filter; the Contains stub also carries the GOMAXPROCS-changes-under-a-running-call fault)"]},
     },
     "C15": {
         "race": False,
@@ -143,7 +143,7 @@ PROPS = {
             "CSV and 3MF go through a Mesh (a set), so their faces are compared as multisets",
             "PLY elements without properties are not generated (degenerate; zero bytes per binary row)",
         ],
-        "components": {"real": REAL_CODECS + ["fileformats/wavefront_obj.go", "fileformats/3mf.go", "archive/zip, encoding/xml (re-parse)"],
+        "components": {"real": REAL_CODECS + ["fileformats/wavefront_obj.go", "fileformats/3mf.go", "archive/zip, encoding/xml (re-parse)", "os file system of a scratch directory (save_paths: the path-based Mesh.Save* exporters open their files themselves; its history - longer or foreign files already at the path - is what the workload injects)"],
                        "stub": ["simio.Reader / simio.Writer (the simulated disk/stream)", "slowDisk (a simio.Writer whose Write is a scheduling point) and client tasks of the concurrent_export kind"], "shim": []},
     },
     "C16": {
